@@ -12,7 +12,10 @@ META = dict(
           "[address_keyed_storage_inherits]. Deciding part: generated histories over up to 5 engines (placement new in 3 pool slots so that a later engine has the "
           "address of a destroyed one, or plain heap), three long-lived worker threads and the main thread, with the SAME local / global / function names used in "
           "every engine: set/get locals per thread, globals, function definitions and calls, engines destroyed while workers still hold their per-thread state; "
-          "every observation on the real engines must equal the model's (locals per (engine, thread); globals and functions per engine; nothing inherited)."),
+          "every observation on the real engines must equal the model's (locals per (engine, thread); globals and functions per engine; nothing inherited). "
+          "Shared-object histories (outside the model): engine A runs scripts that try to change or decorate the process-wide `true` / `false` / void singletons "
+          "(`:=`, references, parameters, function-form operators, containers), engines B (coexisting) and C (created later, possibly at A's address) are probed on any "
+          "thread and must answer like a fresh engine in a fresh process; the attribute route is the known finding SHARED_CONSTANT_ATTRIBUTES."),
     note=("Trusted: Lean kernel; Model/Tls.lean and the history interpreter Drv/Tls.lean (globals/functions per engine are modelled as plain per-engine tables: that all other "
           "engine state is held in members is read off the class definitions, not proved); harness/engines.cpp. Types, conversions and used-file records are per-engine "
           "members like functions and are exercised by C15/C19, not here."),
